@@ -748,6 +748,19 @@ class Env:
                                       finding=('C02/leap-time-axis' if touches_leap(v, pill[-1]) and isinstance(x, float) and isinstance(d, float)
                                                and x > 0 and d > 0 and abs(math.log(x / d)) <= self.leap_bound(v, pill[-1], rate_scale * 4) else None),
                                       clause='bump-zero')
+            # a non-zero bump must leave the ORIGINAL curve untouched (the bumped curve is a new object)
+            if not isinstance(b, str):
+                b2 = self.call(curve.bump, 0.0123)
+                for q in qs[:6]:
+                    d0 = dfq[q.excel_dt]
+                    d1 = self.call(curve.df, q)
+                    d1 = d1 if isinstance(d1, str) else fl(d1)
+                    if isinstance(d0, str) and isinstance(d1, str) and d0 == d1:
+                        continue
+                    if isinstance(d0, str) or isinstance(d1, str) or not (d0 == d1 or close(d0, d1, rtol=1e-13, atol=0)):
+                        ctx.violation('curve.df changed after calling curve.bump(non-zero) on the same curve object',
+                                      desc | {'query': self.dstr(q), 'df_before': d0, 'df_after_bump': d1}, clause='bump-leaves-original')
+                        break
             ctx.count('oracle/bump', 1)
             if not single_knot:
                 self.views(rng, curve, desc, qs, dfq, cmp_, nviews=2 if ctx.quick() else 4)
